@@ -109,6 +109,20 @@ CLAIMED = {
    note="Histories exhaustive for 2 entries x 3 calls; programs sampled (96 quick / 600 thorough). Property insns are excluded as in the property.",
    technique="TLA+ interface/first-call state machine (TLC, all histories) x TLA+ abstract machine as oracle; replay through every interface",
    design="DESIGN.md §4 C03, §3.5"),
+ "C09": dict(level="model_checking",
+   text="spec/CPP.tla models C11 6.10 on abstract tokens: Prosser's hide-set algorithm (expand/subst/glue/hsadd/stringize, placemarkers, "
+        "__VA_ARGS__, argument pre-expansion, blue paint, rescanning with the rest of the source), the conditional-group stack, and #if "
+        "evaluation in intmax_t/uintmax_t on spec/lib/W64cpp.tla with the 6.10.1p4 signedness rules. TLC enumerates by BFS every macro "
+        "environment/invocation text, conditional nesting (depth 3) and one-operator #if expression of the stated bounds and simulates larger "
+        "ones (3 macros, lists <= 5, text <= 6, expression depth 3 over a 36-value grid), emitting each case with the expected token sequence, "
+        "selected groups, or value/signedness. Every defined case is rendered to C source and run through `c2m -E` and `gcc -E -P -std=c11`; "
+        "token spellings are compared; a violation needs spec and gcc to agree against c2m.",
+   note="Unspecified, undefined and ill-formed cases are never replayed (order of # and ##, invalid pastes, 6.10.3.4p4 nesting policy, signed "
+        "overflow, division by zero, bad shifts, unterminated invocations). Trusted: TLC, gcc as second oracle, the re-lexer/renderer in c09.py, "
+        "W64cpp.tla (cross-checked against host integers in selftest).",
+   technique="TLA+ executable semantics (Prosser hide sets, conditional stack, 64-bit limb arithmetic) evaluated by TLC as exhaustive case tables "
+             "and simulations; cases replayed through c2m -E with gcc -E as second oracle",
+   design="DESIGN.md §4 C09, §3.9"),
  "C13": dict(level="model_checking",
    text="MIRLink.tla is an implementation-shaped machine (environment table, to-link queue, bindings of linked modules, redefinition "
         "permission) with an independent definition history in which BindLatest, RedefRejected, UndefinedReported, LocalBinding and "
